@@ -74,8 +74,9 @@ let run_case oc (c : case) =
   (* sequence numbers: the model is an ideal reassembler on unbounded numbers; the 32 bit values of the
      capture are unwrapped per directed 4-tuple around the first value seen (+2^32) *)
   let bases : (string, int) Hashtbl.t = Hashtbl.create 16 in
-  let unwrap key seq =
+  let unwrap key seq syn =
     let m = 1 lsl 32 in
+    if syn then Hashtbl.replace bases key seq;      (* a new connection restarts the numbering *)
     match Hashtbl.find_opt bases key with
     | None -> Hashtbl.add bases key seq; seq + m
     | Some b -> let d = ((seq - b + (m / 2)) land (m - 1)) - (m / 2) in b + m + d
@@ -93,7 +94,7 @@ let run_case oc (c : case) =
                 p_src = (addr_of_hex tok.(3), n_of_int (int_of_string tok.(4)));
                 p_dst = (addr_of_hex tok.(5), n_of_int (int_of_string tok.(6)));
                 p_tcp = tcp; p_syn = has 'S'; p_ackf = has 'A'; p_fin = has 'F'; p_rst = has 'R';
-                p_seq = (if tcp then n_of_int (unwrap (tok.(3) ^ ":" ^ tok.(4) ^ ">" ^ tok.(5) ^ ":" ^ tok.(6)) (int_of_string tok.(9))) else N0);
+                p_seq = (if tcp then n_of_int (unwrap (tok.(3) ^ ":" ^ tok.(4) ^ ">" ^ tok.(5) ^ ":" ^ tok.(6)) (int_of_string tok.(9)) (has 'S')) else N0);
                 p_data = bytes_of_hex (if tcp then tok.(11) else tok.(8)) } in
       per.(f) <- p :: per.(f))
     (List.rev c.pkts);
